@@ -13,6 +13,16 @@ CHECKS = {
         'written out); harness/c18.py. Axiom-free (Print Assumptions: closed). Aliasing of returned views and slice steps are not modelled.',
    tech='Rocq proof: refinement to list spec by induction + model/implementation correspondence', ref='DESIGN.md section 6 (C18)'),
 }
+CHECKS['C01'] = dict(
+   text='Machine-checked theorems over the reads of the input candle arrays that the two simulators make in each step, REGENERATED with their guards from '
+        'backtest_mode.py on every run (the generator refuses any other use of the input inside the simulators): every read in step i lies inside the rows that '
+        'end before the step ends (no negative, from-the-end index; no slice reaching past the step), hence for an ARBITRARY engine behaviour F (stores, matching, '
+        'strategy, hooks, recording of observations), any timeframes and any number of symbols, two inputs that agree before t give the same state after the '
+        'steps that end before t - for every t in the normal simulator and for t on a chunk boundary in the fast one. The predicted reads over whole runs are '
+        'compared inside Coq with the reads recorded on the real arrays, and a two-run differential on the real engine searches for a concrete look-ahead.',
+   note='Trusted: Coq kernel + vm_compute; translator/simidx.py (output validated against recorded reads each run); harness/c01.py, engine.py. Assumes the engine '
+        'reaches the input only through the extracted reads (enforced syntactically, fail-closed). Axiom-free.',
+   tech='Rocq proof over source-regenerated access lists + arbitrary-engine fold; recorded-read correspondence; two-run differential search', ref='DESIGN.md section 6 (C01)')
 CHECKS['C02'] = dict(
    text='Machine-checked theorems (exact rationals; candle_includes_price / split_candle REGENERATED from /repo each run) about the per-minute match loop with the '
         'strategy layer as an ARBITRARY function of the fill: an order resting at the start of a minute whose price is inside the (gap-extended) range and which '
@@ -24,6 +34,17 @@ CHECKS['C02'] = dict(
    note='Trusted: Coq kernel + vm_compute; translator; hand-written Model/Match.v and Model/Lifecycle.v tied by correspondence; harness/c02.py, engine.py, driver.py. '
         'The fast simulator\'s chunk loop is covered by the monitor, not by a theorem. Axiom-free.',
    tech='Rocq proof over source-regenerated kernels + match-loop model with arbitrary reactions; loop correspondence; Coq monitor on real event streams', ref='DESIGN.md section 6 (C02)')
+CHECKS['C06'] = dict(
+   text='Machine-checked theorems (exact rationals) over a model of what a symbol\'s fills do (trade record, fee, position_fill, previous_qty, hook classification, '
+        'ClosedTrade fields): for every REGULAR fill sequence (no reduce-only order larger than the position, no flip) the hooks form open/(increase|reduce)*/close '
+        'cycles, every fill fires exactly the matching hook with the size the fills imply, the closed trades are exactly the cycles of the fill sequence, and the '
+        'wallet equals start + net PnL (ClosedTrade.pnl, profit minus fees) of the closed trades + the open cycle\'s realised part - an invariant proved by '
+        'induction with average-cost bookkeeping. Outside the regular fills the statement is REFUTED by two machine-checked witnesses (full-size stop after a partial '
+        'take-profit; flip), recorded as known findings. The model is run in Coq against the real Order/Position/ClosedTrades/Strategy objects fill by fill '
+        '(regular and irregular), and Coq monitors in the theorems\' vocabulary are evaluated on the traces of real sessions.',
+   note='Trusted: Coq kernel + vm_compute; hand-written Model/Trades.v (+ Model/Futures.position_fill) tied by correspondence; harness/c06.py, driver.py, engine.py. '
+        'Spot sessions (fee taken in the base asset) are outside the model. Axiom-free.',
+   tech='Rocq proof by invariant over fill sequences + refutation witnesses; object-level correspondence; Coq monitors on real session traces', ref='DESIGN.md section 6 (C06)')
 CHECKS['C07'] = dict(
    text='Machine-checked theorem (exact rationals, every timeframe length n>0 and every store content): whenever the stored higher-timeframe candles are the '
         'aggregations of the complete windows, optionally followed by one stale partial candle of the running window (the invariant the simulators maintain), '
